@@ -66,6 +66,7 @@ def jobs(tier, seed):
         out.append(('func-%s' % fn, dict(kind='func', name=fn, k=0)))
         out.append(('slice-%s' % fn, dict(kind='slice', name=fn, k=0)))
     out.append(('log1p-vs-log', dict(kind='log1p', name='log1p', k=0)))
+    out.append(('log-exp-roundtrip-on-slice', dict(kind='logslice', name='log', k=0)))
     out.append(('ring-array', dict(kind='ring_array', name='mul', k=0)))
     return out
 
@@ -136,6 +137,8 @@ def run_job(job, kind, name, k):
         return func(job, mc, name)
     if kind == 'slice':
         return on_slice(job, mc, name)
+    if kind == 'logslice':
+        return log_slice(job, mc)
     return log1p(job, mc)
 
 
@@ -317,6 +320,46 @@ def on_slice(job, mc, name):
     job.prove('z2 component == 0', z3.And(z3.simplify(_rw(r2.r, ax), som=True) == 0, z3.simplify(_rw(r2.i, ax), som=True) == 0), [], info)
 
 
+def log_slice(job, mc):
+    """branch logic of log on the slice z2 = 0 (the first-derivative configuration x + ih): exp(log(zeta)) == zeta for
+    every z1 = a + ib with a != 0, from: sqrt(w^2) = +-w by the sign of Re w, arctan 0 = 0, exp(log w) = w,
+    cos/sin at 0 and at the library's pi, TINY -> 0."""
+    import math
+    with tr.traced(extra=[(mc, '_TINY', 0.0)]):
+        a, b = sn.real_var('xa'), sn.real_var('xb')
+        x = mc.Bicomplex(sn.scalar_arr(sn.SymC(a, b)), 0.0)
+        lg = x.log()
+        back = lg.exp()
+    job.paths += 1
+    z1 = C(a.t, b.t)
+    zero = C(z3.RealVal(0), z3.RealVal(0))
+    one = C(z3.RealVal(1), z3.RealVal(0))
+    pi = C(sn.ratval(math.pi), z3.RealVal(0))
+    ax = []
+
+    def eq(p, q):
+        ax.extend([p.r == q.r, p.i == q.i])
+    sq = z1 * z1
+    root = cuf('sqrt', sq)
+    # principal square root of a square
+    ax.append(z3.Implies(a.t > 0, z3.And(root.r == z1.r, root.i == z1.i)))
+    ax.append(z3.Implies(a.t < 0, z3.And(root.r == -z1.r, root.i == -z1.i)))
+    eq(cuf('arctan', zero), zero)
+    eq(cuf('exp', cuf('log', root)), root)
+    eq(cuf('cos', zero), one)
+    eq(cuf('sin', zero), zero)
+    eq(cuf('cos', pi), C(z3.RealVal(-1), z3.RealVal(0)))
+    eq(cuf('sin', pi), zero)
+    eq(cuf('cos', pi.neg()), C(z3.RealVal(-1), z3.RealVal(0)))
+    eq(cuf('sin', pi.neg()), zero)
+    r1, r2 = of_symc(back.z1), of_symc(back.z2)
+    info = dict(key='C12:func:log-slice-roundtrip', kind='bicomplex', op='logslice')
+    pre = ax + [a.t != 0]
+    job.prove('exp(log(z1 + j0)).z1 == z1', z3.And(r1.r == z1.r, r1.i == z1.i), pre, info)
+    job.prove('exp(log(z1 + j0)).z2 == 0', z3.And(r2.r == 0, r2.i == 0), pre, info)
+    job.twin('axioms satisfiable', pre)
+
+
 def log1p(job, mc):
     with tr.traced(extra=[(mc, '_TINY', 0.0)]):
         x, z1, z2 = bic(mc, 'x')
@@ -359,7 +402,12 @@ def numeric_deviation(mc, op, k=0, trials=40, seed=0):
         x, y = mc.Bicomplex(z1, z2), mc.Bicomplex(y1, y2)
         u, v, yu, yv = z1 - 1j * z2, z1 + 1j * z2, y1 - 1j * y2, y1 + 1j * y2
         s = 0.7
-        if op in NPF:
+        if op == 'logslice':
+            x = mc.Bicomplex(complex(rng.choice([-1, 1]) * rng.uniform(0.2, 2), rng.normal() * 0.3), 0.0)
+            z1, z2 = complex(np.ravel(x.z1)[0]), 0j
+            res = x.log().exp()
+            fu = fv = z1
+        elif op in NPF:
             res, fu, fv = getattr(x, op)(), NPF[op](u), NPF[op](v)
         elif op in ('add',):
             res, fu, fv = x + y, u + yu, v + yv
